@@ -100,6 +100,59 @@ def flip_bits(raw: bytes, positions) -> bytes:
     return bytes(b)
 
 
+# ---- frames with a chosen CRC trailer --------------------------------------------------------------------------
+# crc(M || X) for three bytes X equals crc3(crc(M) ^ X) where crc3(v) = v * x^24 mod G is linear in the 24 bits of v.
+_INV = None
+
+
+def _crc3(v):
+    return crc_table(v.to_bytes(3, "big"))
+
+
+def _inverse_crc3():
+    """matrix inverse of crc3 over GF(2), as a list mapping each target basis bit to the pre-image"""
+    global _INV
+    if _INV is None:
+        # Gaussian elimination on the 24x24 system: columns = images of the basis vectors
+        rows = [(_crc3(1 << k), 1 << k) for k in range(24)]  # (image, pre-image)
+        basis = {}
+        for img, pre in rows:
+            while img:
+                hb = img.bit_length() - 1
+                if hb not in basis:
+                    basis[hb] = (img, pre)
+                    break
+                bi, bp = basis[hb]
+                img ^= bi
+                pre ^= bp
+        _INV = basis
+    return _INV
+
+
+def preimage_crc3(target):
+    """v with crc3(v) == target"""
+    basis = _inverse_crc3()
+    v = 0
+    t = target
+    while t:
+        hb = t.bit_length() - 1
+        bi, bp = basis[hb]
+        t ^= bi
+        v ^= bp
+    return v
+
+
+def frame_with_trailer(payload_prefix: bytes, trailer: bytes) -> bytes:
+    """a VALID frame whose payload is payload_prefix + 3 computed bytes and whose CRC trailer equals `trailer`"""
+    n = len(payload_prefix) + 3
+    assert n <= MAXPAY and len(trailer) == 3
+    head = bytes([0xD3, n >> 8, n & 0xFF]) + payload_prefix
+    x = crc_table(head) ^ preimage_crc3(int.from_bytes(trailer, "big"))
+    f = head + x.to_bytes(3, "big") + trailer
+    assert frame_problem(f) is None
+    return f
+
+
 def selfcheck():
     chk = b"123456789"
     assert crc_div(chk) == 0xCDE703, hex(crc_div(chk))
@@ -108,6 +161,9 @@ def selfcheck():
         assert crc_div(d) == crc_table(d)
     f = build_frame(b"\x3e\xd0\x00")
     assert frame_problem(f) is None
+    for tr in (b"\x00\x00\x00", b"\xe8\r\n", b"\xff\xff\xff", b"\xd3\x00\x13"):
+        g = frame_with_trailer(b"\xfe\x80\x01", tr)
+        assert g[-3:] == tr and crc_div(g) == 0
     assert frame_problem(flip_bits(f, [30])) is not None
 
 
